@@ -524,7 +524,7 @@ def xsd_errors(root) -> list:
         if "This element is not expected" in m:
             # locate the parent of the offending element for a narrow signature
             try:
-                node = r.xpath(e.path) if e.path else []
+                node = r.getroottree().xpath(e.path, namespaces={k: v for k, v in r.nsmap.items() if k}) if e.path else []
                 parent = etree.QName(node[0].getparent()).localname + "/" if node else ""
             except Exception:
                 parent = ""
@@ -767,5 +767,6 @@ def corpus_charts() -> list:
         with open(f, "rb") as fh:
             for n, (si, cname, croot, xl) in enumerate(charts_in_deck(fh.read())):
                 ps = plots_of(croot)
-                out.append((f, n, etree.QName(ps[0]).localname if ps else "", [len(p.findall(q(C, "ser"))) for p in ps]))
+                out.append((f, n, etree.QName(ps[0]).localname if ps else "", [len(p.findall(q(C, "ser"))) for p in ps],
+                            [etree.QName(p).localname for p in ps]))
     return out
